@@ -83,6 +83,15 @@ theorem toposort_sound_nodup {edges : List Edge} {r : Nat} (T : TreeLike edges r
   let I := binv_run T (edges.length + 1) (binv_init edges r)
   ⟨out_sub I, out_nodup I⟩
 
+/-- The decidable recogniser printed by the driver is sound for the hypothesis: the harness asserts
+    `isArbo = true` on every listing it treats as a tree, so each such case is an instance of the
+    theorems above (per-case non-vacuity). -/
+theorem isArbo_implies_arbo {edges : List Edge} (h : isArbo edges = true) : ∃ r, Arbo edges r :=
+  isArbo_sound h
+
+example : isArbo [(2,3),(0,1),(1,2),(1,4)] = true := by decide
+example : isArbo [(0,1),(1,0)] = false := by decide
+
 /-! Non-vacuity: the suite's example skeleton, listed out of order, is an arborescence. -/
 example : Arbo [(2,3),(0,1),(1,2),(1,4)] 0 := by
   have r0 : Reach [(2,3),(0,1),(1,2),(1,4)] 0 0 := Reach.root
